@@ -508,6 +508,11 @@ impl Parser {
                         format!("type mismatch: this assignment will update a variable with type `{}`, which is not compatible with the original type `{}`", previous_ty.ty().unwrap(), &x.idents[0])
                     )]);
                 }
+
+                // the target is the captured variable, which keeps the type it was declared with (an `int?`
+                // stays an `int?` when an int is stored): that is the variable this function depends on
+                let declared = previous_ty.ty().unwrap().disregard_distractors(false).clone();
+                x.idents[0].set_type_no_link(Cow::Owned(TypeLayout::CallbackVariable(Box::new(declared))));
             }
         }
 
